@@ -15,7 +15,10 @@ Record read_case := {
 
 Inductive c02_case :=
 | C2Sched (c : sched_case)
-| C2Read (c : read_case).
+| C2Read (c : read_case)
+| C2Tso (ds : list (list N)).
+    (* allocator stress on the real tso: per goroutine the revisions Deal() returned, in order, while
+       another goroutine keeps calling Commit with revisions ahead of the counter *)
 
 (* ---------- model of a read case ---------- *)
 
@@ -135,8 +138,13 @@ Definition read_oracle (c : read_case) : option N :=
   else if forallb (fun qr => rd_bound (snd qr) || rd_f1 (fst qr) (snd qr)) (rc_reads c) then Some 1
   else Some 0.
 
+(* what every interleaving of the model allows: each goroutine sees strictly increasing revisions *)
+Definition tso_check (ds : list (list N)) : bool := forallb (increasing_from 0) ds.
+(* the property: moreover no revision is handed out twice *)
+Definition tso_ok (ds : list (list N)) : bool := tso_check ds && nodupb (concat ds).
+
 Definition c02_check (c : c02_case) : bool :=
-  match c with C2Sched c => sched_check c | C2Read c => read_check c end.
+  match c with C2Sched c => sched_check c | C2Read c => read_check c | C2Tso ds => tso_check ds end.
 
 Definition c02_oracle (c : c02_case) : option N :=
-  match c with C2Sched c => ok_if (rev_ok c) | C2Read c => read_oracle c end.
+  match c with C2Sched c => ok_if (rev_ok c) | C2Read c => read_oracle c | C2Tso ds => ok_if (tso_ok ds) end.
